@@ -125,10 +125,26 @@ func (e *cbEnc) rec(before int, lay ...cbLay) {
 	}
 }
 
-func (e *cbEnc) putInt8(in int8)   { b := e.inner.offset(); e.inner.putInt8(in); e.rec(b, cbLay{"f1", 1}) }
-func (e *cbEnc) putInt16(in int16) { b := e.inner.offset(); e.inner.putInt16(in); e.rec(b, cbLay{"f2", 2}) }
-func (e *cbEnc) putInt32(in int32) { b := e.inner.offset(); e.inner.putInt32(in); e.rec(b, cbLay{"f4", 4}) }
-func (e *cbEnc) putInt64(in int64) { b := e.inner.offset(); e.inner.putInt64(in); e.rec(b, cbLay{"f8", 8}) }
+func (e *cbEnc) putInt8(in int8) {
+	b := e.inner.offset()
+	e.inner.putInt8(in)
+	e.rec(b, cbLay{"f1", 1})
+}
+func (e *cbEnc) putInt16(in int16) {
+	b := e.inner.offset()
+	e.inner.putInt16(in)
+	e.rec(b, cbLay{"f2", 2})
+}
+func (e *cbEnc) putInt32(in int32) {
+	b := e.inner.offset()
+	e.inner.putInt32(in)
+	e.rec(b, cbLay{"f4", 4})
+}
+func (e *cbEnc) putInt64(in int64) {
+	b := e.inner.offset()
+	e.inner.putInt64(in)
+	e.rec(b, cbLay{"f8", 8})
+}
 func (e *cbEnc) putVarint(in int64) {
 	b := e.inner.offset()
 	e.inner.putVarint(in)
@@ -152,7 +168,11 @@ func (e *cbEnc) putArrayLength(in int) error {
 	e.rec(b, cbLay{"f4", 4})
 	return nil
 }
-func (e *cbEnc) putBool(in bool) { b := e.inner.offset(); e.inner.putBool(in); e.rec(b, cbLay{"f1", 1}) }
+func (e *cbEnc) putBool(in bool) {
+	b := e.inner.offset()
+	e.inner.putBool(in)
+	e.rec(b, cbLay{"f1", 1})
+}
 
 // prefix + payload: the payload is the last n bytes of what the call produced
 func (e *cbEnc) prefixed(b int, pk string, n int, err error) error {
@@ -705,6 +725,10 @@ func cbRun(rec *vRec, s *cbSubject, sum *cbSummary) {
 		}
 	}
 	rec.Ev("body", ev)
+	if dk := fmt.Sprintf("%s/%d/%s/%s", s.name, s.version, s.kind, cbDigest(buf)); len(real.tape.cells) >= 3 && !sum.seen[dk] {
+		sum.seen[dk] = true
+		sum.Distinct++
+	}
 	sum.Runs[key]++
 	sum.Total++
 	if len(sum.Samples) < 3 && sum.Total%97 == 1 {
@@ -713,12 +737,14 @@ func cbRun(rec *vRec, s *cbSubject, sum *cbSummary) {
 }
 
 type cbSummary struct {
-	Total   int            `json:"bodies"`
-	Runs    map[string]int `json:"runs"`
-	Skipped map[string]int `json:"skipped_first_encode_failed"`
+	Total    int               `json:"bodies"`
+	Runs     map[string]int    `json:"runs"`
+	Skipped  map[string]int    `json:"skipped_first_encode_failed"`
 	Panicked map[string]string `json:"first_encode_panicked"`
-	Samples []string       `json:"samples"`
-	Never   []string       `json:"never_encoded"`
+	Samples  []string          `json:"samples"`
+	Never    []string          `json:"never_encoded"`
+	Distinct int               `json:"distinct_nontrivial"`
+	seen     map[string]bool
 }
 
 // ---------------------------------------------------------------- structural filler
@@ -1445,7 +1471,7 @@ func cbRecordSubjects(rng *rand.Rand, mode int) []*cbSubject {
 
 func TestVerifCodecBody(t *testing.T) {
 	rec := vOpenRec(t, "trace.ndjson")
-	sum := &cbSummary{Runs: map[string]int{}, Skipped: map[string]int{}, Panicked: map[string]string{}}
+	sum := &cbSummary{Runs: map[string]int{}, Skipped: map[string]int{}, Panicked: map[string]string{}, seen: map[string]bool{}}
 	fills := 4
 	if vThorough() {
 		fills = 40
